@@ -214,9 +214,20 @@ func impl(in hv.Val) hv.Val {
 			if s.Closed || cl.dead || s.Queued >= limit {
 				// (at the limit the marker PING itself would race with the draining writer for the limit check)
 				out = append(out, hv.L{hv.I(7), hv.L{}})
+				sd, ok := cl.barrier()
+				if !ok {
+					return hv.Err(7)
+				}
+				out = append(out, sampleVal(sd))
 				continue
 			}
-			out = append(out, drain(cl, fr, &b))
+			out = append(out, drain(cl, fr, &b, s.StreamQ))
+			// everything queued has been written: the counters must be back to zero
+			sd, ok := cl.barrier()
+			if !ok {
+				return hv.Err(7)
+			}
+			out = append(out, sampleVal(sd))
 			continue
 		}
 		cl.send(b.Bytes())
@@ -238,26 +249,33 @@ func impl(in hv.Val) hv.Val {
 }
 
 // drain: read everything the server had queued, up to the ack of a marker PING
-func drain(cl *client, fr *bfe_http2.Framer, b *bytes.Buffer) hv.Val {
+// and until the HEADERS frames of the wantHeaders blocked handlers have arrived (the stream queues are empty then)
+func drain(cl *client, fr *bfe_http2.Framer, b *bytes.Buffer, wantHeaders int) hv.Val {
 	res := make(chan hv.L, 1)
 	go func() {
 		tags := hv.L{}
+		headers, sawMarker := 0, false
 		rf := bfe_http2.NewFramer(io.Discard, cl.c)
 		cl.c.SetReadDeadline(time.Now().Add(10 * time.Second))
 		for {
+			if sawMarker && headers >= wantHeaders {
+				res <- hv.L{hv.I(7), tags}
+				return
+			}
 			f, err := rf.ReadFrame()
 			if err != nil {
 				res <- hv.L{hv.I(7), append(tags, hv.I(-3))}
 				return
 			}
 			switch f := f.(type) {
+			case *bfe_http2.HeadersFrame:
+				headers++
 			case *bfe_http2.PingFrame:
 				if f.IsAck() && f.Data[0] != 0xee {
 					id := binary.BigEndian.Uint64(f.Data[:])
 					tags = append(tags, hv.U(id))
 					if id == marker {
-						res <- hv.L{hv.I(7), tags}
-						return
+						sawMarker = true
 					}
 				}
 			case *bfe_http2.RSTStreamFrame:
